@@ -224,17 +224,22 @@ def run_spec(spec, out):
                 if isinstance(lim, list):
                     lim = tuple(lim)
                 state["fault"] = op.get("fault")
-                basic.load_theory(op["name"], limit=lim)
+                if op.get("user"):
+                    basic.load_theory(op["name"], limit=lim, username=op["user"])
+                else:
+                    basic.load_theory(op["name"], limit=lim)
             elif op["op"] == "touch":
-                p = basic.user_file(op["name"])
+                p = basic.user_file(op["name"], op.get("user") or "master")
                 os.utime(p, (op["mtime"], op["mtime"]))
             elif op["op"] == "edit":
-                p = basic.user_file(op["name"])
+                p = basic.user_file(op["name"], op.get("user") or "master")
                 assert spec.get("libroot") and os.path.realpath(p).startswith(os.path.realpath(spec["libroot"]))
                 shutil.copyfile(op["src"], p)
                 os.utime(p, (op["mtime"], op["mtime"]))
             elif op["op"] == "reload":
-                basic.load_metadata()
+                basic.load_metadata(op.get("user") or "master")
+            elif op["op"] == "noop":
+                pass
             else:
                 raise ValueError(op)
         except BaseException as e:  # noqa
